@@ -101,6 +101,8 @@ def gen_plan(seed, tier, index):
         inst = r.choice([0, 0, 0, 1, 2])
         if x < 0.78:
             op = {'op': 'process', 'inst': inst, 'page': r.randrange(npages)}
+            if r.random() < 0.12:
+                op['reuse'] = True       # the very same PageLayout object again (after an ALTO export, as parse_folder does)
             y = r.random()
             if y < 0.08:
                 op['fault'] = {'kind': 'lm_exc', 'where': r.choice(['advance_h0', 'log_probs', 'add_line_end',
@@ -179,6 +181,7 @@ def execute(plan):
             processed = {}          # inst -> number of unfaulted pages since creation/fork
             refs = {}
             pending = {}
+            last_objects = {}
             carry_lm = bool(cfg.get('carry') and cfg.get('lm'))
             shape = []
             for k, op in enumerate(plan['ops']):
@@ -199,6 +202,15 @@ def execute(plan):
                     continue
                 spec = plan['pages'][op['page']]
                 layout = content.build_layout(spec, chars)
+                # (with FILTER_CONFIDENT_LINES_THRESHOLD the first pass removes lines from the object: it is then
+                # no longer the same page, so that configuration is excluded)
+                if op.get('reuse') and op['page'] in last_objects and not op.get('fault') and not cfg.get('filter_threshold'):
+                    layout = last_objects[op['page']]
+                    try:
+                        layout.to_altoxml_string()
+                    except Exception:
+                        pass
+                    res.probe('same_layout_object_processed_again')
                 fault = op.get('fault')
                 wrapper = None
                 lm = None
@@ -231,6 +243,10 @@ def execute(plan):
                 if fault and fault['kind'] == 'lm_exc' and res.faults.get('lm_transient_exception', 0) == fired_before:
                     fault = None          # the n-th call never happened: not a faulted page
                 log.add('inst%d' % i, 'process', [spec['id'], kernel.sha(result), failed])
+                if failed is None and not fault:
+                    last_objects[op['page']] = layout
+                else:
+                    last_objects.pop(op['page'], None)
                 res.states.append(kernel.sha([kernel.sha(cfg), decoder_state_sig(instances[i])]))
                 if fault:
                     res.probe('faulted_page_exempt')
